@@ -22,6 +22,17 @@ class C20(Prop):
     def gen(self, rng, i, tier):
         u = rng.randint(1, 8)
         universe = [[rng.randint(0, 5), rng.randint(0, 5) + 6 * j] for j in range(u)]
+        if i % 3 == 0:
+            # elements are plain hashable keys: (a, b) and (b, a) are different members, (a, a) is its own mirror image
+            universe += [[b, a] for a, b in universe[: rng.randint(1, len(universe))]]
+            if rng.random() < 0.5:
+                universe.append([7, 7])
+            seen, uniq = set(), []
+            for e in universe:
+                if tuple(e) not in seen:
+                    seen.add(tuple(e))
+                    uniq.append(e)
+            universe = uniq
         n = rng.randint(1, 80)
         ops = []
         for _ in range(n):
@@ -43,7 +54,7 @@ class C20(Prop):
 
     def exhaustive(self, tier):
         L = 4 if tier == "quick" else 6
-        universe = [[0, 1], [0, 2], [1, 2]]
+        universe = [[0, 1], [1, 0], [1, 2]]          # two orientations of one pair are two different elements
         kinds = [["add", e] for e in universe] + [["remove", e] for e in universe]
         for n in range(1, L + 1):
             for seq in itertools.product(kinds, repeat=n):
